@@ -102,9 +102,7 @@ def an_op(r, refs):
 
 def gen_session(r, name, kind=None):
     kind = kind or r.choice(["H", "H", "H", "V", "HV", "HV", "SD", "GR", "AN", "MIX", "VGADD"])
-    # odd ndds only for H/V sessions: Hnumber (used by ANstart/GRstart/SDstart) over-reads a DD list of odd length
-    # (defect of property C12, HTIcount_dd), which is not this property's subject
-    ndds = r.choice([4, 4, 5, 16]) if kind in FULL_KINDS else r.choice([4, 4, 16])
+    ndds = r.choice([4, 4, 5, 16])
     refs, names = Refs(), []
     base = []
     nb = r.randrange(2, 9)
